@@ -34,6 +34,9 @@ type TLCOpts struct {
 	KeepOut  bool
 	Env      []string
 	Dump     string // if set: -dump dot,actionlabels <file>
+
+	noRetry     bool // internal: this is already a buffered attempt
+	softTimeout bool // internal: a timeout is reported in the result instead of ending the check
 }
 
 type TLCResult struct {
@@ -47,6 +50,7 @@ type TLCResult struct {
 	Output     string
 	Wall       float64
 	CoverageOf map[string]int // action name -> distinct states count (when Coverage)
+	TimedOut   bool           // killed at the soft time limit (generator runs only)
 }
 
 var (
@@ -59,7 +63,43 @@ var (
 )
 
 // RunTLC runs TLC on a module of /verif/spec in a scratch copy.
+// RunTLC runs TLC once; a generator run (simulation with a trace callback) that does not end within a quarter of its
+// time limit is killed and started once more (a JVM that hung on an overloaded machine was seen once): the traces are
+// buffered and handed to the callback only when the run has ended.
 func (r *Run) RunTLC(o TLCOpts) *TLCResult {
+	if o.Simulate == "" || o.OnTrace == nil || o.noRetry {
+		return r.runTLC(o)
+	}
+	full := o.Timeout
+	if full == 0 {
+		full = 10 * time.Minute
+	}
+	var res *TLCResult
+	for try := 0; try < 2; try++ {
+		var buf []json.RawMessage
+		o2 := o
+		o2.noRetry = true
+		o2.softTimeout = try == 0
+		if try == 0 {
+			o2.Timeout = full / 4
+		} else {
+			o2.Timeout = full
+		}
+		o2.OnTrace = func(raw json.RawMessage) { buf = append(buf, append(json.RawMessage{}, raw...)) }
+		res = r.runTLC(o2)
+		if res.TimedOut {
+			fmt.Printf("NOTE: TLC generator %s/%s did not end within %v, started again\n", o.Module, o.Cfg, o2.Timeout)
+			continue
+		}
+		for _, raw := range buf {
+			o.OnTrace(raw)
+		}
+		return res
+	}
+	return res
+}
+
+func (r *Run) runTLC(o TLCOpts) *TLCResult {
 	specDir := filepath.Join(VerifDir, "spec")
 	dir := r.Dir(fmt.Sprintf("tlc.%s.%d", o.Module, time.Now().UnixNano()))
 	ents, err := os.ReadDir(specDir)
@@ -175,6 +215,10 @@ func (r *Run) RunTLC(o TLCOpts) *TLCResult {
 	res.Wall = time.Since(start).Seconds()
 	res.Output = out.String()
 	if killed {
+		if o.softTimeout {
+			res.TimedOut = true
+			return res
+		}
 		Fail("TLC timed out after %v on %s/%s", to, o.Module, cfg)
 	}
 	if m := reStates.FindAllStringSubmatch(res.Output, -1); m != nil {
